@@ -319,7 +319,7 @@ fn reinit_case(w: &mut World) -> Result<(), String> {
         w.out.cov.bump("reinit_equal_variant_degraded_by_inactive_member");
     }
     w.log(json!({"op":"reinit_successor","variant":variant,"members":used.len() + 1}));
-    w.out.cov.eval(Some(fnv(format!("reinit|{variant}|{need_new_keys}").as_bytes())));
+    w.out.cov.eval(Some(fnv(format!("reinit|{variant}|{need_new_keys}|{}|{}", used.len().min(8), w.cfg.suite).as_bytes())));
     w.out.cov.bump(&format!("reinit_variant:{variant}"));
     let (ci, crc) = clients.remove(creator_pos);
     let created = guarded(move || crc.commit(used, Default::default(), None));
@@ -460,7 +460,7 @@ fn branch_case(w: &mut World) -> Result<(), String> {
     }
     let sub_id = w.rng.bytes(10);
     w.log(json!({"op":"branch","by":c,"variant":variant,"members":kps.len() + 1}));
-    w.out.cov.eval(Some(fnv(format!("branch|{variant}").as_bytes())));
+    w.out.cov.eval(Some(fnv(format!("branch|{variant}|{}|{}", kps.len().min(8), w.cfg.suite).as_bytes())));
     w.out.cov.bump(&format!("branch_variant:{variant}"));
     let created = {
         let g = w.g(c);
